@@ -15,8 +15,8 @@ TECHNIQUE = ('generated two-transaction schedules on a mini-ZODB: a Hypothesis-g
              'declarations of every write and their absence for pure reads; in addition a bounded-exhaustive '
              'enumeration of duels on one leaf: every subset (size 1..2) of ten leaf-targeted primitives (delete / '
              'replace the first, a middle, the last key; insert right before the first, right after the first, '
-             'after the last key; empty the leaf) on one side against every single primitive (thorough: every '
-             'pair) on the other, on every leaf of small stored trees, both commit orders, both implementations')
+             'after the last key; empty the leaf) on one side against every single primitive (thorough: also ten '
+             'pairs) on the other, on every leaf of small stored trees, both commit orders, both implementations')
 RULE = ('a case is (configuration, base fill, thinning, transaction A, transaction B, commit order).  '
         'Non-trivial: both transactions changed something and conflict resolution or a read-dependency '
         'check actually ran (the second committer had a stale object).  Distinct = distinct case JSON.')
@@ -55,7 +55,8 @@ def _duels(fam, tier):
     a_sets = [list(c) for r in (1, 2) for c in itertools.combinations(PRIMS, r)]
     b_sets = [[p] for p in PRIMS]
     if tier == 'thorough':
-        b_sets = a_sets
+        # singles + every pair of the first five primitives (the full 55 x 55 grid takes hours)
+        b_sets = [[p] for p in PRIMS] + [list(c) for c in itertools.combinations(PRIMS[:5], 2)]
     shapes = (([3, 2], 2, 8), ([4, 3], 2, 11)) if tier == 'quick' else (([3, 2], 2, 8), ([4, 3], 2, 11), ([3, 3], 3, 7),
                                                                       ([2, 2], 2, 7), ([5, 4], 2, 14))
 
@@ -65,7 +66,7 @@ def _duels(fam, tier):
         for impl in ('c', 'py'):
             for sizes, step, length in shapes:
                 base = [dom[(1 + j * step) % len(dom)] for j in range(length)]
-                for i in range(3 if tier == 'quick' else 5):
+                for i in range(3 if tier == 'quick' else 4):
                     for ta in a_sets:
                         for tb in b_sets:
                             for a_first in (True, False):
